@@ -100,7 +100,10 @@ class Monitor:
         self.calls.append({"k": k, "kind": "prior", "n": len(x), "x": x.copy() if self.keep_points else None})
         return self._ret(val, samples.x)
 
+    n_like_asked = 0  # points the likelihood was asked to evaluate, including a call that then fails
+
     def log_likelihood(self, samples, map_fn=None):
+        self.n_like_asked += len(samples.x)
         k = self._tick("like")
         x = tonp(samples.x)
         rec = {"k": k, "kind": "like", "n": len(x), "x": x.copy() if self.keep_points else None}
